@@ -11,22 +11,34 @@ ALL = ("MolGraph", "StereoMolGraph", "CondensedReactionGraph", "StereoCondensedR
 # (derivation, class) -> {"pid": property whose clause names the views carry, "tier": first tier that runs it, "bound": loop bound, "want": clause families}
 PLAN = {
     "C10": [("copy", c, "quick", 1, ("view", "wf", "fresh", "source")) for c in ALL] + [("copy_constructor", c, "quick", 1, ("view", "wf", "fresh", "source")) for c in ALL]
-           + [("subgraph", c, "quick", 1, ("fresh", "source")) for c in ("MolGraph", "CondensedReactionGraph")],
+           + [("subgraph", c, "quick", 1, ("fresh", "source")) for c in ("MolGraph", "CondensedReactionGraph")]
+           + [("enantiomer", "StereoMolGraph", "quick", 1, ("fresh", "source"))],
     "C17": [("subgraph", c, "quick", 1, ("view", "wf")) for c in ("MolGraph", "CondensedReactionGraph")]
            + [("subgraph", c, "thorough", 2, ("view", "wf")) for c in ("MolGraph",)],
-    "C06": [("enantiomer", "StereoMolGraph", "quick", 1, ("view",)), ("enantiomer", "StereoMolGraph", "thorough", 1, ("wf", "fresh", "source"))],
+    # loops of SMG.enantiomer carry side-car invariants (vf/contracts/loop_invariants.py) -> unbounded; invert() enters through its contract
+    "C06": [("enantiomer", "StereoMolGraph", "quick", 1, ("view", "wf", "fresh", "source"))],
     "C11": [("relabel_atoms(copy=True)", "MolGraph", "thorough", 1, ("view", "wf", "source"))],
 }
 
 
 def ob_derivation(rep, world, dname, cname, pid, bound, want, timeout):
-    verify.verify_derivation(rep.obs, world, cname, dname, D.DERIVATIONS[dname](), pid, timeout=timeout, iter_bound=bound, want=want)
+    from ..contracts.loop_invariants import LOOPS
+
+    verify.verify_derivation(rep.obs, world, cname, dname, D.DERIVATIONS[dname](), pid, timeout=timeout, iter_bound=bound, want=want, loop_contracts=LOOPS,
+                             callee_contracts=verify.DESCR_CONTRACTS)
     # keep the clauses that belong to this property (freshness clauses are named C10/...)
     rep.obs[:] = [o for o in rep.obs if o.name.startswith(pid + "/") or o.name.startswith("E1/")]
 
 
+def ob_invert(rep, world, pid, timeout):
+    """callee contract used above: the real _StereoMixin.invert against d_invert, for every descriptor class"""
+    verify.verify_invert(rep.obs, world, pid, timeout)
+
+
 def tasks(pid, tier, timeout):
     out = []
+    if pid == "C06":
+        out.append(("ob_invert", (pid, timeout)))
     for dname, cname, first, bound, want in PLAN.get(pid, []):
         if first == "thorough" and tier == "quick":
             continue
@@ -37,6 +49,8 @@ def tasks(pid, tier, timeout):
 def functions(world, pid):
     seen, out = set(), []
     names = {"copy": "copy", "copy_constructor": "__init__", "subgraph": "subgraph", "enantiomer": "enantiomer", "relabel_atoms(copy=True)": "relabel_atoms"}
+    if pid == "C06":
+        out.append(src_info("stereodescriptors.py", "_StereoMixin.invert"))
     for dname, cname, *_ in PLAN.get(pid, []):
         dc, m = world.cls(cname).find(names[dname])
         if dc is not None:
